@@ -731,6 +731,13 @@ func (t *fnTrans) chanDrainedVar(ct types.Type) *StateVar {
 	return t.stateVar("CE_"+typeKey(et), "(Array Int Bool)", "chan", true, nil)
 }
 
+// chanListenedVar: per channel, whether the most recent select of this function had a case on it (ghost; spec builtin listened(ch)).
+func (t *fnTrans) chanListenedVar(ct types.Type) *StateVar {
+	et := ct.Underlying().(*types.Chan).Elem()
+	// function-local: not heap, not a channel counter - a callee's own selects do not change what THIS function's last select listened on
+	return t.stateVar("CW_"+typeKey(et), "(Array Int Bool)", "chansel", false, nil)
+}
+
 func (t *fnTrans) setDrained(ct types.Type, ch Term, val Term) {
 	ce := t.chanDrainedVar(ct)
 	cur := t.get(t.cur, ce.Name)
@@ -898,6 +905,20 @@ func (t *fnTrans) selectInstr(in *ssa.Select) {
 		} else {
 			t.recordRecv(s.Chan.Type(), t.term(t.val(s.Chan)), chosen)
 		}
+	}
+	// listened(ch): the most recent select of this function had a case on ch (reset per element type at every select)
+	reset := map[string]bool{}
+	for _, s := range in.States {
+		lv := t.chanListenedVar(s.Chan.Type())
+		if !reset[lv.Name] {
+			reset[lv.Name] = true
+			t.set(lv.Name, "((as const (Array Int Bool)) false)")
+		}
+	}
+	for _, s := range in.States {
+		lv := t.chanListenedVar(s.Chan.Type())
+		ch := t.term(t.val(s.Chan))
+		t.set(lv.Name, fmt.Sprintf("(store %s %s (not (= %s 0)))", t.get(t.cur, lv.Name), ch, ch))
 	}
 	if !in.Blocking {
 		// default taken: every receive case's channel was seen empty
